@@ -76,6 +76,26 @@ class Poly:
             out = out + term
         return out
 
+    def subst_mono(self, mono, repl):
+        """substitute the monomial `mono` (sorted tuple of symbols, treated as one non-negative quantity) by `repl`
+        in every term that contains it exactly once as a sub-multiset"""
+        repl = _p(repl)
+        out = Poly()
+        for k, v in self.t.items():
+            rest = list(k)
+            ok = True
+            for x in mono:
+                if x in rest:
+                    rest.remove(x)
+                else:
+                    ok = False
+                    break
+            if ok:
+                out = out + Poly({tuple(rest): v}) * repl
+            else:
+                out = out + Poly({k: v})
+        return out
+
     def nonneg_syntactic(self):
         """True if every coefficient is >= 0 (all symbols denote non-negative quantities)."""
         return all(v >= 0 for v in self.t.values())
